@@ -39,7 +39,8 @@ static int ci_eq(const uint8_t *a, size_t an, const uint8_t *b, size_t bn) {
 }
 static int is_ws(uint8_t c) { return (c == ' ' || c == '\t' || c == '\r' || c == '\n'); }
 
-struct fld { size_t n0, n1, v0, v1, t0, t1, end; int match; };	/* name, raw value, trimmed value, terminator offset */
+/* per field: name span, raw value span, trimmed value span, terminator offset, name matches
+ * (plain scalar arrays, no memset / struct copies: keeps every position a constant for CBMC's symbolic execution) */
 
 void harness(void) {
 	V_BEGIN();
@@ -48,16 +49,17 @@ void harness(void) {
 	static uint8_t look_store[LOOKLEN];
 	uint8_t *look = look_store;
 	size_t pos = 0, si = 0, lpos = 0;
-	struct fld f[3];
-	memset(f, 0, sizeof(f));
+	size_t f_n0[3] = { 0, 0, 0 }, f_n1[3] = { 0, 0, 0 }, f_v0[3] = { 0, 0, 0 }, f_v1[3] = { 0, 0, 0 };
+	size_t f_t0[3] = { 0, 0, 0 }, f_t1[3] = { 0, 0, 0 }, f_end[3] = { 0, 0, 0 };
+	int f_match[3] = { 0, 0, 0 };
 
 	T_EMIT(look, lpos, T_LOOK, IN.sym, si);
 	T_EMIT(buf, pos, T_LINE, IN.sym, si);
 #define FIELD(i, TN, TV) do { \
 	buf[pos++] = '\r'; buf[pos++] = '\n'; \
-	f[i].n0 = pos; T_EMIT(buf, pos, TN, IN.sym, si); f[i].n1 = pos; \
+	f_n0[i] = pos; T_EMIT(buf, pos, TN, IN.sym, si); f_n1[i] = pos; \
 	buf[pos++] = ':'; \
-	f[i].v0 = pos; T_EMIT(buf, pos, TV, IN.sym, si); f[i].v1 = pos; f[i].end = pos; \
+	f_v0[i] = pos; T_EMIT(buf, pos, TV, IN.sym, si); f_v1[i] = pos; f_end[i] = pos; \
 } while (0)
 	FIELD(0, T_N1, T_V1);
 #if NF >= 2
@@ -71,18 +73,19 @@ void harness(void) {
 
 	size_t nmatch = 0, first = NF, second = NF;
 	for (size_t i = 0; i < NF; i++) {
-		size_t a = f[i].v0, b = f[i].v1;
+		size_t a = f_v0[i], b = f_v1[i];
 		while (a < b && is_ws(buf[a])) a++;
 		while (b > a && is_ws(buf[b - 1])) b--;
-		f[i].t0 = a; f[i].t1 = b;
-		f[i].match = ci_eq(buf + f[i].n0, f[i].n1 - f[i].n0, look, lpos);
-		if (f[i].match) {
+		f_t0[i] = a; f_t1[i] = b;
+		f_match[i] = ci_eq(buf + f_n0[i], f_n1[i] - f_n0[i], look, lpos);
+		if (f_match[i]) {
 			if (nmatch == 0) first = i;
 			if (nmatch == 1) second = i;
 			nmatch++;
 		}
 	}
 
+#if MODE == 1	/* first match: http_hdr_val_get_ex(offset 0) */
 	const uint8_t *val = (const uint8_t *)&pos;
 	size_t vlen = 777, next = 777;
 	int r = http_hdr_val_get_ex(buf, TOTAL, look, lpos, 0, &val, &vlen, &next);
@@ -92,33 +95,42 @@ void harness(void) {
 	} else {
 		V_ASSERT(r == 0, "a field with that name (any letter case) is found");
 		if (r == 0) {
-			V_ASSERT(vlen == f[first].t1 - f[first].t0, "value length = raw value minus surrounding OWS / folds");
-			V_ASSERT(vlen == 0 || val == buf + f[first].t0, "value pointer = first non-OWS byte of the FIRST matching field");
+			V_ASSERT(vlen == f_t1[first] - f_t0[first], "value length = raw value minus surrounding OWS / folds");
+			V_ASSERT(vlen == 0 || val == buf + f_t0[first], "value pointer = first non-OWS byte of the FIRST matching field");
 			V_ASSERT(val >= buf && val + vlen <= buf + TOTAL, "value is a sub-span of the block");
-			V_ASSERT(next == f[first].end, "offset_next = offset of the CRLF that ends the field (or the block size)");
-			/* plain getter agrees */
-			const uint8_t *val2 = NULL; size_t vlen2 = 777;
-			int r2 = http_hdr_val_get(buf, TOTAL, look, lpos, &val2, &vlen2);
-			V_ASSERT(r2 == 0 && val2 == val && vlen2 == vlen, "http_hdr_val_get == http_hdr_val_get_ex(offset 0)");
-			/* continue after the first match */
-			const uint8_t *val3 = NULL; size_t vlen3 = 777, next3 = 777;
-			int r3 = http_hdr_val_get_ex(buf, TOTAL, look, lpos, next, &val3, &vlen3, &next3);
-			if (second == NF) {
-				V_ASSERT(r3 != 0, "no second field with that name");
-			} else {
-				V_ASSERT(r3 == 0, "second field with that name is found when continuing at offset_next");
-				if (r3 == 0) {
-					V_ASSERT(vlen3 == f[second].t1 - f[second].t0 && (vlen3 == 0 || val3 == buf + f[second].t0) &&
-					    next3 == f[second].end, "second match: trimmed value span and offset_next");
-					V_WITNESS("lookup: second match");
-				}
-			}
-			if (f[first].t0 != f[first].v0 || f[first].t1 != f[first].v1) V_WITNESS("lookup: OWS trimmed");
+			V_ASSERT(next == f_end[first], "offset_next = offset of the CRLF that ends the field (or the block size)");
+			if (f_t0[first] != f_v0[first] || f_t1[first] != f_v1[first]) V_WITNESS("lookup: OWS trimmed");
 			if (first != 0) V_WITNESS("lookup: earlier fields skipped");
 			V_WITNESS("lookup: found");
 		}
 	}
+#elif MODE == 2	/* plain getter and continuation after the first match (offset = offset_next of the first match) */
+	V_ASSUME(first != NF);
+	const uint8_t *val2 = NULL; size_t vlen2 = 777;
+	int r2 = http_hdr_val_get(buf, TOTAL, look, lpos, &val2, &vlen2);
+	V_ASSERT(r2 == 0 && vlen2 == f_t1[first] - f_t0[first] && (vlen2 == 0 || val2 == buf + f_t0[first]),
+	    "http_hdr_val_get returns the trimmed value of the first matching field");
+	const uint8_t *val3 = NULL; size_t vlen3 = 777, next3 = 777;
+	int r3 = -1;
+	for (size_t i = 0; i < NF; i++) {	/* case split so that the offset passed in is a constant on each path */
+		if (first == i) r3 = http_hdr_val_get_ex(buf, TOTAL, look, lpos, f_end[i], &val3, &vlen3, &next3);
+	}
+	if (second == NF) {
+		V_ASSERT(r3 != 0, "no second field with that name");
+		V_WITNESS("continuation: no further match");
+	} else {
+		V_ASSERT(r3 == 0, "second field with that name is found when continuing at offset_next");
+		if (r3 == 0) {
+			V_ASSERT(vlen3 == f_t1[second] - f_t0[second] && (vlen3 == 0 || val3 == buf + f_t0[second]) &&
+			    next3 == f_end[second], "second match: trimmed value span and offset_next");
+			V_WITNESS("continuation: second match");
+		}
+	}
+#else		/* MODE 3: count */
 	size_t cnt = http_hdr_val_get_count(buf, TOTAL, look, lpos);
 	V_ASSERT(cnt == nmatch, "http_hdr_val_get_count = number of fields whose name matches case-insensitively");
 	if (nmatch >= 2) V_WITNESS("count: duplicates");
+	if (nmatch == 1) V_WITNESS("count: one");
+	if (nmatch == 0) V_WITNESS("count: none");
+#endif
 }
